@@ -695,3 +695,44 @@ class HandleBye(_Announcement):
         ex.oblige(st, 'announced_endpoint_removed_once', z3.And(
             z3.BoolVal(len(calls) == 1 and calls[0][0] == '_remove_remote_service'), calls[0][1][0] == self.epr.e)
             if len(calls) == 1 else z3.BoolVal(False))
+
+
+@register
+class FilterServices(FnCheck):
+    id = 'C14.filter_services'
+    prop = 'C14'
+    target = f'{WSD}:filter_services'
+    doc = ('filter_services(services, types, scopes): exactly the given services for which matches_filter (C14.matches_filter) '
+           'holds with these types and scopes - every returned service is one of the given ones and matches, every given '
+           'service that matches is returned; the given collection is not changed')
+
+    def setup(self, b):
+        st = b.st
+        self.S = z3.Const('services', SeqVal)
+        lst = b.obj('services_list')
+        st.assume(z3.Select(st.get_arr('C'), lst.e) == b.ex.ctx.builtin_class_ids['list'])
+        st.assume(z3.Select(st.get_arr('L'), lst.e) == self.S)
+        self.lst = lst
+        self.types, self.scopes = b.any('types', maybe_none=True), b.any('scopes', maybe_none=True)
+        self.MF = z3.Function('matches_filter', Val, Val, Val, BoolS)
+        return None, [lst, self.types, self.scopes], {}
+
+    def callees(self, ex):
+        return {f'{WSD}:matches_filter': Pure(lambda e, st, a, k: vbool(self.MF(st.box(a[0]), st.box(a[1]), st.box(a[2]))),
+                                              name='matches_filter (C14.matches_filter)')}
+
+    def post(self, ex, st0, st, outcome, b):
+        if outcome[0] == 'exc':
+            ex.oblige(st, 'never_raises', z3.BoolVal(False), info={'exc': repr(outcome[1])})
+            return
+        r = ex.concrete_kind(st, outcome[1], ('ref',))
+        R = st.list_seq(r)
+        i, j = z3.Int('i!fs'), z3.Int('j!fs')
+        ok = lambda s: self.MF(s, self.types.e, self.scopes.e)   # noqa: E731
+        ex.oblige(st, 'every_returned_service_is_a_given_one_that_matches', z3.ForAll([j], z3.Implies(
+            z3.And(0 <= j, j < z3.Length(R)),
+            z3.Exists([i], z3.And(0 <= i, i < z3.Length(self.S), self.S[i] == R[j], ok(self.S[i]))))))
+        ex.oblige(st, 'every_given_service_that_matches_is_returned', z3.ForAll([i], z3.Implies(
+            z3.And(0 <= i, i < z3.Length(self.S), ok(self.S[i])),
+            z3.Exists([j], z3.And(0 <= j, j < z3.Length(R), R[j] == self.S[i])))))
+        ex.oblige(st, 'given_collection_untouched', st.list_seq(self.lst) == self.S)
